@@ -77,15 +77,6 @@ impl Container {
         }
     }
 
-    /// Create container from existing coupons
-    pub fn from_coupons(lg_size: usize, coupons: Box<[u32]>, len: usize) -> Self {
-        Self {
-            lg_size,
-            coupons,
-            len,
-        }
-    }
-
     pub fn len(&self) -> usize {
         self.len
     }
